@@ -97,7 +97,7 @@ def _pick(eng, res, fi, ensemble: bool) -> int:
             else:
                 why2 = f"traversal collects {elt}, not the declared share"
     res.ob("R-PICK-FRACTION", fi, "declared-shares", "p contains the declared share (relative or absolute mass) of every component of this system, in component order", c, ok, why2)
-    cand = flow.expand_ssa(c.args[0], at) if c.args else None
+    cand = c13._plain_range(flow.expand_ssa(c.args[0], at)) if c.args else None
     # range(len(<the comprehension>)) — or range(len(<its iterable>)) when the comprehension has no filter (same length)
     okc = cand is not None and isinstance(cand, ast.Call) and callee_name(cand) == "range" and len(cand.args) == 1 and any(
         norm(cand.args[0]) == norm(ast.parse(f"len({src(lc)})", mode="eval").body)
